@@ -47,11 +47,39 @@ var c07Rec = regexp.MustCompile(`data-f="([^"]*)" data-a="([^"]*)" data-b="([^"]
 
 // the two orders in which a request builds its template: data first, or file first
 var c07LoadFirst bool
+var c07Ctor int
 
 func c07Render(files []c07File, page string, data [][2]string) Obs {
 	m := fstest.MapFS{}
 	for _, f := range files {
 		m[f.name] = &fstest.MapFile{Data: []byte(f.Source())}
+	}
+	// how the renderer came to be: NewFS over the files (0), the documented New(WithFS(...)) (1), a renderer
+	// built BEFORE the layouts existed (2), a renderer built while a default layout existed that is gone by
+	// the time of the render (3). A render sees the files as they are when it runs.
+	mk := func() vuego.Template { return vuego.NewFS(m) }
+	switch c07Ctor {
+	case 1:
+		mk = func() vuego.Template { return vuego.New(vuego.WithFS(m)) }
+	case 2:
+		early := fstest.MapFS{}
+		for k, v := range m {
+			if !strings.HasPrefix(k, "layouts/") {
+				early[k] = v
+			}
+		}
+		t := vuego.NewFS(early)
+		for k, v := range m {
+			early[k] = v
+		}
+		mk = func() vuego.Template { return t }
+	case 3:
+		if _, ok := m["layouts/base.vuego"]; !ok {
+			m["layouts/base.vuego"] = &fstest.MapFile{Data: []byte(`<em data-f="ghost" data-a="" data-b=""></em><section v-html="content"></section>`)}
+			t := vuego.NewFS(m)
+			delete(m, "layouts/base.vuego")
+			mk = func() vuego.Template { return t }
+		}
 	}
 	d := map[string]any{}
 	for _, kv := range data {
@@ -66,9 +94,9 @@ func c07Render(files []c07File, page string, data [][2]string) Obs {
 			}
 		}()
 		if c07LoadFirst {
-			err = vuego.NewFS(m).Load(page).Fill(d).Render(context.Background(), &buf)
+			err = mk().Load(page).Fill(d).Render(context.Background(), &buf)
 		} else {
-			err = vuego.NewFS(m).Fill(d).Load(page).Render(context.Background(), &buf)
+			err = mk().Fill(d).Load(page).Render(context.Background(), &buf)
 		}
 	}()
 	if err != nil {
@@ -187,6 +215,8 @@ func runC07(r *Run) {
 	emit := func(c cfg) {
 		c07LoadFirst = r.Rng.Intn(3) == 0 // Load(page).Fill(data): the page's front-matter still wins over the filled data
 		r.Count(fmt.Sprintf("order:load-first=%v", c07LoadFirst))
+		c07Ctor = r.Rng.Intn(6) // 0,4,5: NewFS; 1: New(WithFS); 2: built before the layouts existed; 3: built while a default layout existed
+		r.Count(fmt.Sprintf("constructor:%d", c07Ctor))
 		impl := c07Render(c.files, c.page, c.data)
 		want := c07Oracle(c.files, c.page, c.data, 100)
 		desc := map[string]any{"page": c.page, "data": c.data, "files": func() map[string]string {
